@@ -325,6 +325,15 @@ Section Proofs.
   Lemma length_concat_sum : forall {B} (l : list (list B)), length (concat l) = sum (map (@length B) l).
   Proof. intros. apply sum_map_length_concat. Qed.
 
+  Lemma list_eqb_nat_refl : forall l : list nat, list_eqb Nat.eqb l l = true.
+  Proof. induction l as [|x l IH]; simpl; auto. rewrite Nat.eqb_refl, IH. reflexivity. Qed.
+
+  Lemma list_eqb_nat_eq : forall a b : list nat, list_eqb Nat.eqb a b = true -> a = b.
+  Proof.
+    induction a as [|x a IH]; intros [|y b] H; simpl in H; try discriminate; auto.
+    apply andb_true_iff in H. destruct H as [H1 H2]. apply Nat.eqb_eq in H1. f_equal; auto.
+  Qed.
+
   Lemma met_cat0_canon : forall ws (ms : list cellmat), ms <> [] ->
     met_cat0 A (map (met_of_cells ws) ms) = Some (met_of_cells ws (concat ms)).
   Proof.
@@ -333,7 +342,10 @@ Section Proofs.
     - remember (m0 :: m1 :: ms') as ms eqn:Ems.
       unfold met_cat0. rewrite Ems at 1. cbn [map]. cbv iota. cbn [ec met_of_cells].
       replace (met_of_cells ws m1 :: map (met_of_cells ws) ms') with (map (met_of_cells ws) (m1 :: ms')) by reflexivity.
-      rewrite (forallb_map_true (fun x => ec x =? length ws) (met_of_cells ws)) by (intros; simpl; apply Nat.eqb_refl).
+      cbn [eoffs].
+      rewrite (forallb_map_true (fun x => (ec x =? length ws) && list_eqb Nat.eqb (eoffs x) (0 :: cumsum ws))
+                                (met_of_cells ws))
+        by (intros; cbn [ec eoffs met_of_cells]; rewrite Nat.eqb_refl, list_eqb_nat_refl; reflexivity).
       unfold t2_cat0. rewrite Ems at 1. cbn [map]. cbn [evals met_of_cells t2w].
       replace (MkT2 (map (@concat A) m1) (sum ws) :: map (@evals A) (map (met_of_cells ws) ms'))
         with (map (fun m => MkT2 (map (@concat A) m) (sum ws)) (m1 :: ms'))
@@ -452,7 +464,32 @@ Section Proofs.
   Lemma met_cat0_mismatch : forall x0 rest x, In x rest -> ec x <> ec x0 -> met_cat0 A (x0 :: rest) = None.
   Proof.
     intros x0 rest x Hin Hx. unfold met_cat0. destruct rest as [|x1 rest']; [contradiction|].
-    rewrite (forallb_exists_false _ (x1 :: rest') x Hin); [reflexivity|]. apply Nat.eqb_neq. assumption.
+    rewrite (forallb_exists_false _ (x1 :: rest') x Hin); [reflexivity|].
+    apply andb_false_iff. left. apply Nat.eqb_neq. assumption.
+  Qed.
+
+  (* equal num_cols is not enough: every part must cut its columns where the first does *)
+  Lemma met_cat0_offset_mismatch : forall x0 rest x, In x rest -> eoffs x <> eoffs x0 ->
+    met_cat0 A (x0 :: rest) = None.
+  Proof.
+    intros x0 rest x Hin Hx. unfold met_cat0. destruct rest as [|x1 rest']; [contradiction|].
+    rewrite (forallb_exists_false _ (x1 :: rest') x Hin); [reflexivity|].
+    apply andb_false_iff. right. destruct (list_eqb Nat.eqb (eoffs x) (eoffs x0)) eqn:E; [|reflexivity].
+    exfalso. apply Hx. apply list_eqb_nat_eq. exact E.
+  Qed.
+
+  Lemma offs_inj : forall ws ws' : list nat, 0 :: cumsum ws = 0 :: cumsum ws' -> ws = ws'.
+  Proof.
+    intros ws ws' H. rewrite <- (diffs_of_offs ws), <- (diffs_of_offs ws'), H. reflexivity.
+  Qed.
+
+  Lemma met_cat0_width_mismatch : forall ws ws' (m m' : cellmat) before after, ws' <> ws ->
+    met_cat0 A (met_of_cells ws m :: before ++ met_of_cells ws' m' :: after) = None.
+  Proof.
+    intros ws ws' m m' before after Hne.
+    apply (met_cat0_offset_mismatch _ _ (met_of_cells ws' m')).
+    - apply in_or_app. right. left. reflexivity.
+    - cbn [eoffs met_of_cells]. intro E. apply Hne. apply offs_inj. exact E.
   Qed.
 
   Lemma met_cat1_mismatch : forall x0 rest x, In x rest -> er x <> er x0 -> met_cat1 A (x0 :: rest) = None.
@@ -1392,4 +1429,52 @@ Section Proofs.
 
   Lemma met_from_cells_nocols : forall (m : cellmat), met_from_cells A ([] :: m) = None.
   Proof. reflexivity. Qed.
+
+  (* -------------------------------------------------------------- *)
+  (* from_tensor_list on its real input shape *)
+  Lemma met_from_tensor_list_empty : met_from_tensor_list A [] = None.
+  Proof. reflexivity. Qed.
+
+  Lemma met_from_tensor_list_rows_mismatch : forall v0 rest v, In v rest ->
+    length (t2rows v) <> length (t2rows v0) -> met_from_tensor_list A (v0 :: rest) = None.
+  Proof.
+    intros v0 rest v Hin Hne. unfold met_from_tensor_list.
+    rewrite (forallb_exists_false _ rest v Hin); [reflexivity|]. apply Nat.eqb_neq. assumption.
+  Qed.
+
+  Lemma met_from_tensor_list_canon : forall ws (m : cellmat), rect_w ws m -> ws <> [] ->
+    met_from_tensor_list A (cols_of ws m) = Some (met_of_cells ws m).
+  Proof.
+    intros ws m H Hne.
+    set (g := fun j => MkT2 (map (fun row : list (list A) => nth j row []) m) (nth j ws 0)).
+    assert (Hrows : forall j, length (t2rows (g j)) = length m) by (intros; unfold g; cbn [t2rows]; apply map_length).
+    assert (Hw : map (@t2w A) (cols_of ws m) = ws).
+    { unfold cols_of. rewrite map_map. cbn [t2w]. symmetry. apply map_nth_seq. }
+    assert (Hlc : length (cols_of ws m) = length ws) by (unfold cols_of; rewrite map_length, seq_length; reflexivity).
+    assert (Hval : t2_cat1 A (cols_of ws m) = Some (MkT2 (map (@concat A) m) (sum ws))).
+    { unfold t2_cat1, cols_of. fold g. destruct ws as [|w0 ws']; [congruence|].
+      cbn [length seq map]. rewrite Hrows.
+      rewrite (forallb_map_true (fun v => length (t2rows v) =? length m) g) by (intros; rewrite Hrows; apply Nat.eqb_refl).
+      change (g 0 :: map g (seq 1 (length ws'))) with (map g (seq 0 (length (w0 :: ws')))).
+      f_equal. f_equal.
+      - rewrite (map_as_seq (@concat A) m []). apply map_ext_in. intros r Hr. apply in_seq in Hr.
+        f_equal. rewrite map_map.
+        assert (Hl : length (nth r m []) = length (w0 :: ws')).
+        { unfold rect_w in H. rewrite Forall_forall in H. rewrite <- (H (nth r m [])) by (apply nth_In; lia).
+          rewrite map_length. reflexivity. }
+        change (map (fun x : nat => nth r (t2rows (g x)) []) (seq 0 (length (w0 :: ws'))) = nth r m []).
+        rewrite <- Hl. transitivity (map (fun j => nth j (nth r m []) []) (seq 0 (length (nth r m []))));
+          [|symmetry; apply map_nth_seq].
+        apply map_ext. intros j. unfold g. cbn [t2rows].
+        rewrite (nth_indep _ [] ((fun row : list (list A) => nth j row []) [])) by (rewrite map_length; lia).
+        apply (map_nth (fun row : list (list A) => nth j row [])).
+      - change (t2w (g 0) :: map (@t2w A) (map g (seq 1 (length ws')))) with (map (@t2w A) (cols_of (w0 :: ws') m)).
+        rewrite Hw. reflexivity. }
+    unfold met_from_tensor_list. rewrite Hval.
+    unfold cols_of at 1. fold g. destruct ws as [|w0 ws']; [congruence|]. cbn [length seq map]. rewrite Hrows.
+    rewrite (forallb_map_true (fun v => length (t2rows v) =? length m) g) by (intros; rewrite Hrows; apply Nat.eqb_refl).
+    cbn [obind].
+    change (g 0 :: map g (seq 1 (length ws'))) with (cols_of (w0 :: ws') m).
+    rewrite Hw, Hlc. apply mk_met_canon.
+  Qed.
 End Proofs.
